@@ -21,7 +21,7 @@ pub fn property() -> Property {
     Property {
         id: "C13",
         level: "exploration",
-        rule: "Lab-S family `reuse`: histories of requests through the SOCKS5 front-end (the only layer that knows when a request is over): Seq (one request: connect, echo, close from the application side, settle) and Burst(b) (b simultaneous requests, all completed before the next step), 2-40 requests, pool settings varied (min idle 0-3); the real client dials a counting TCP forwarder in front of the real server, which reports how many TLS connections were opened and how many are still open. Oracles: r_n - a request that overlaps no other is served without a new connection whenever an established healthy session exists (n = 2 and n >= 3 are reported under separate signatures); bound - connections still open <= peak simultaneous requests + min idle after every step. Non-trivial = >= 3 sequential requests, or a burst followed by sequential requests. Distinct = distinct serialized case. Histories also contain requests to a closed port (the request fails, the session it used stays healthy and pooled sessions must still be reused) and cuts of every established connection by the forwarder (the next request must be served over a new connection, closed sessions are never handed out). A further step cuts only the k-th newest established connection: at least pooled-1 healthy sessions remain pooled and the next request must be served by one of them. Family `pooled` (Lab-M, virtual time with the I/O driver on): a real Client (it would dial 127.0.0.1:1, where nothing listens) whose pool holds 1-3 healthy in-memory sessions with scripted accepting servers, added first, and 0-3 sessions whose transport takes 10-990 ms to shut down; after 5-200 s idle, cleanup_expired() runs concurrently with create_proxy_stream started 0-1500 ms later, then 0-2 further requests. Whenever the reaper must keep at least one healthy session (min idle >= 1) the request has to be served from the pool; a failure means it went for a new connection. Four pooled cases in ten leave the pool's own periodic housekeeping running (check interval 1 / 10 / 30 / 45 s): as long as nothing has been idle for the 60 s timeout every session must still be pooled and open (C13.reuse:pooled-session-dropped-early).",
+        rule: "Lab-S family `reuse`: histories of requests through the SOCKS5 front-end (the only layer that knows when a request is over): Seq (one request: connect, echo, close from the application side, settle) and Burst(b) (b simultaneous requests, all completed before the next step), 2-40 requests, pool settings varied (min idle 0-3); the real client dials a counting TCP forwarder in front of the real server, which reports how many TLS connections were opened and how many are still open. Oracles: r_n - a request that overlaps no other is served without a new connection whenever an established healthy session exists (n = 2 and n >= 3 are reported under separate signatures); bound - connections still open <= peak simultaneous requests + min idle after every step. Non-trivial = >= 3 sequential requests, or a burst followed by sequential requests. Distinct = distinct serialized case. Histories also contain requests to a closed port (the request fails, the session it used stays healthy and pooled sessions must still be reused) and cuts of every established connection by the forwarder (the next request must be served over a new connection, closed sessions are never handed out). A further step cuts only the k-th newest established connection: at least pooled-1 healthy sessions remain pooled and the next request must be served by one of them. Family `pooled` (Lab-M, virtual time with the I/O driver on): a real Client (it would dial 127.0.0.1:1, where nothing listens) whose pool holds 1-3 healthy in-memory sessions with scripted accepting servers, added first, and 0-3 sessions whose transport takes 10-990 ms to shut down; after 5-200 s idle, cleanup_expired() runs concurrently with create_proxy_stream started 0-1500 ms later, then 0-2 further requests. Whenever the reaper must keep at least one healthy session (min idle >= 1) the request has to be served from the pool; a failure means it went for a new connection. Four pooled cases in ten leave the pool's own periodic housekeeping running (check interval 1 / 10 / 30 / 45 s): as long as nothing has been idle for the 60 s timeout every session must still be pooled and open (C13.reuse:pooled-session-dropped-early). A further step makes a UDP association through the same client whose target answers the one datagram with an empty datagram (ending the client's relay loop): the association counts as a request for the pool model, and the session it ran on must stay usable.",
         assumptions: vec![
             "the forwarder's accept count equals the number of TLS sessions dialled; a connection counts as open until either side closed it",
             "no timers involved: histories are shorter than the 30 s check interval",
